@@ -323,6 +323,37 @@ mut('C10', 'zincparser', "        nearest = Version.nearest(ver)\n        g = se
 mut('C10', 'grid', "        self.metadata = MetadataObject(validate_fn=self._detect_or_validate)", "        self.metadata = MetadataObject()")
 mut('C10', 'zincdumper', "            raise ValueError('Project Haystack version %s ' \\\n                             'does not support lists' \\\n                             % version)", "            raise NotImplementedError('lists')")
 
+# ---- C08 (ZINC escapes) ------------------------------------------------------------
+mut('C08', 'zincdumper', "STR_META = re.compile(r'([\\\\\"\\$\\u0080-\\uffff])')", "STR_META = re.compile(r'([\\\\\"\\u0080-\\uffff])')", 'OK', name='$ no longer escaped (reader accepts raw $)')
+mut('C08', 'zincdumper', "STR_META = re.compile(r'([\\\\\"\\$\\u0080-\\uffff])')", "STR_META = re.compile(r'([\"\\$\\u0080-\\uffff])')", name='backslash no longer escaped')
+mut('C08', 'zincdumper', "STR_META = re.compile(r'([\\\\\"\\$\\u0080-\\uffff])')", "STR_META = re.compile(r'([\\\\\\$\\u0080-\\uffff])')", name='quote no longer escaped')
+mut('C08', 'datatypes', "    ('\\r', '\\\\r'),\n", "", 'OK', name='STR_SUB loses \\r (falls back to \\u000d)')
+mut('C08', 'datatypes', "    ('\\r', '\\\\r'),\n", "    ('\\r', '\\\\n'),\n", name='\\r written as \\n')
+mut('C08', 'zincdumper', """    str_value = STR_META.sub(str_sub, str_value)
+    # Replace other escapes.
+    for orig, esc in STR_SUB:
+        str_value = str_value.replace(orig, esc)""", """    for orig, esc in STR_SUB:
+        str_value = str_value.replace(orig, esc)
+    str_value = STR_META.sub(str_sub, str_value)""", name='phases swapped')
+mut('C08', 'zincdumper', """    if o >= 0x0080:
+        # Unicode
+        return '\\\\u%04x' % o
+    elif c in '\\\\"$':""", """    if o >= 0x0080:
+        # Unicode
+        return '\\\\u%x' % o
+    elif c in '\\\\"$':""", name='%04x -> %x')
+mut('C08', 'zincdumper', "    return '\\\\u%04x' % ord(match.group(0))", "    return '\\\\x%02x' % ord(match.group(0))", name='control chars as \\xNN')
+mut('C08', 'zincparser', "                elif esc_c == 'n':\n                    out += '\\n'", "                elif esc_c == 'n':\n                    out += '\\r'", name='_unescape maps \\n to CR')
+mut('C08', 'zincparser', "out += six.unichr(int(s[2:6], base=16))\n                s = s[6:]", "out += six.unichr(int(s[2:6], base=16))\n                s = s[5:]", name='_unescape consumes 5 for \\u')
+mut('C08', 'zincparser', 'hs_strChar = Regex(r"([^\\x00-\\x1f\\\\\\"]|', 'hs_strChar = Regex(r"([^\\x00-\\x1f\\\\\\"\']|', name="reader rejects apostrophe")
+mut('C08', 'zincparser', ".setParseAction(lambda toks: [_unescape(toks[0], uri=False)])", ".setParseAction(lambda toks: [toks[0]])", name='hs_str without unescape')
+mut('C08', 'zincdumper', "        return '@%s %s' % (ref.name, dump_str(ref.value))", "        return '@%s \"%s\"' % (ref.name, ref.value)", name='Ref display unescaped')
+mut('C08', 'zincdumper', "                       dump_str(xstr_value.data_to_string(), version=version))", "                       '\"%s\"' % xstr_value.data_to_string())", name='revert fix: XStr payload raw')
+mut('C08', 'zincdumper', "URI_META = re.compile(r'([\\\\`\\u0080-\\uffff])')", "URI_META = re.compile(r'([\\\\\\u0080-\\uffff])')", name='backtick no longer escaped in URIs')
+mut('C08', 'zincdumper', """    str_value = CTRL_META.sub(ctrl_sub, str_value)
+""", "", name='revert fix: control characters raw')
+mut('C08', 'zincdumper', "    elif c in '\\\\\"$':\n        return '\\\\%s' % c", "    elif c in '\\\\\"':\n        return '\\\\%s' % c", name='str_sub forgets $ (deleted)')
+
 
 def run(selected):
     base_cache = {}
